@@ -1136,36 +1136,11 @@ impl ExpressionPredicate {
     fn compare_values(&self, left: &Value, right: &Value) -> Option<i32> {
         match (left, right) {
             (Value::Int64(a), Value::Int64(b)) => Some(a.cmp(b) as i32),
-            (Value::Float64(a), Value::Float64(b)) => {
-                if a < b {
-                    Some(-1)
-                } else if a > b {
-                    Some(1)
-                } else {
-                    Some(0)
-                }
-            }
+            // NaN is not comparable: the comparison is unknown (NULL), not "equal"
+            (Value::Float64(a), Value::Float64(b)) => a.partial_cmp(b).map(|o| o as i32),
             (Value::String(a), Value::String(b)) => Some(a.cmp(b) as i32),
-            (Value::Int64(a), Value::Float64(b)) => {
-                let af = *a as f64;
-                if af < *b {
-                    Some(-1)
-                } else if af > *b {
-                    Some(1)
-                } else {
-                    Some(0)
-                }
-            }
-            (Value::Float64(a), Value::Int64(b)) => {
-                let bf = *b as f64;
-                if *a < bf {
-                    Some(-1)
-                } else if *a > bf {
-                    Some(1)
-                } else {
-                    Some(0)
-                }
-            }
+            (Value::Int64(a), Value::Float64(b)) => (*a as f64).partial_cmp(b).map(|o| o as i32),
+            (Value::Float64(a), Value::Int64(b)) => a.partial_cmp(&(*b as f64)).map(|o| o as i32),
             _ => None,
         }
     }
